@@ -50,37 +50,36 @@ theorem mean_unfixed_partial (b : Col) (bs : List Col) (hb : pcount b ≠ 0) (k 
     (run MeanOrig (b :: bs))[k]? = some (pmean ((b :: bs).take (k + 1)).flatten) :=
   meanOrig_eq b bs hb k hk
 
-/-- `Var(ddof)` (`sdf.x.aggregate(Var(ddof))`, `sdf.expanding().x.var(ddof)`), ddof ∈ {0,1}: whenever
-the prefix has at least one row the stream emits the textbook pandas variance
-Σ(v - mean)²/(n - ddof) of the prefix (NaN when n ≤ ddof) — the two-moment formula of the code
-is proved equal to it. -/
-theorem var_stream_eq_pandas (ddof : Nat) (hd : ddof ≤ 1) (bs : List Col) (k : Nat) (hk : k < bs.length)
-    (hrow : (bs.take (k + 1)).flatten ≠ []) :
+/-- `Var(ddof)` (`sdf.x.aggregate(Var(ddof))`, `sdf.expanding().x.var(ddof)`), ddof ∈ {0,1}: after
+every batch - including a prefix without any row, where the unrepaired code raised `ZeroDivisionError`
+(repaired in /repo; the hypothesis `prefix ≠ []` this theorem used to need is gone) - the stream emits
+the textbook pandas variance Σ(v - mean)²/(n - ddof) of the prefix (NaN when n ≤ ddof) — the two-moment
+formula of the code is proved equal to it. -/
+theorem var_stream_eq_pandas (ddof : Nat) (hd : ddof ≤ 1) (bs : List Col) (k : Nat) (hk : k < bs.length) :
     (run (Var ddof) bs)[k]? = some (Res.ok (pvar ddof (bs.take (k + 1)).flatten)) := by
-  rw [var_run ddof bs k hk, varSpec, if_neg hrow, varResult_eq_pvar_of_le_one ddof hd]
+  rw [var_run ddof bs k hk, varSpec, varResult_eq_pvar_of_le_one ddof hd]
 
 /-- any `ddof`: equality with pandas as soon as more than `ddof` values have been counted. -/
 theorem var_stream_eq_pandas_any_ddof (ddof : Nat) (bs : List Col) (k : Nat) (hk : k < bs.length)
     (hn : (ddof : Int) < pcount (bs.take (k + 1)).flatten) :
     (run (Var ddof) bs)[k]? = some (Res.ok (pvar ddof (bs.take (k + 1)).flatten)) := by
-  have hrow : (bs.take (k + 1)).flatten ≠ [] := by
-    intro h; rw [h] at hn; simp at hn; omega
-  rw [var_run ddof bs k hk, varSpec, if_neg hrow, varResult_eq_pvar_of_lt ddof _ hn]
+  rw [var_run ddof bs k hk, varSpec, varResult_eq_pvar_of_lt ddof _ hn]
 
-/-- The excluded case is exactly "no row so far": then (and only then) `Var` raises
-`ZeroDivisionError` instead of emitting, and the node keeps no state. -/
-theorem var_stream_raises_iff_no_row (ddof : Nat) (bs : List Col) (k : Nat) (hk : k < bs.length) :
-    (run (Var ddof) bs)[k]? = some Res.zeroDiv ↔ (bs.take (k + 1)).flatten = [] := by
-  rw [var_run ddof bs k hk, varSpec]
-  by_cases h : (bs.take (k + 1)).flatten = [] <;> simp [h]
+/-- The formerly excluded case "no row so far": the stream emits NaN (what pandas gives for the variance of
+nothing), for every `ddof`; it never raises. -/
+theorem var_stream_no_row_is_nan (ddof : Nat) (bs : List Col) (k : Nat) (hk : k < bs.length)
+    (h : (bs.take (k + 1)).flatten = []) :
+    (run (Var ddof) bs)[k]? = some (Res.ok none) := by
+  rw [var_run ddof bs k hk, varSpec, h]
+  simp [varResult, odiv, pcount]
 
 /-- `std` is `var ** 0.5` applied to each emission by a downstream `map_partitions`
 (core.py:622-624, 864-866): for ANY function `root` put there, the std stream is `root` of the
 pandas variance of the prefix. -/
 theorem std_stream_eq_pandas {α : Type} (root : Res → α) (ddof : Nat) (hd : ddof ≤ 1) (bs : List Col) (k : Nat)
-    (hk : k < bs.length) (hrow : (bs.take (k + 1)).flatten ≠ []) :
+    (hk : k < bs.length) :
     ((run (Var ddof) bs).map root)[k]? = some (root (Res.ok (pvar ddof (bs.take (k + 1)).flatten))) := by
-  rw [List.getElem?_map, var_stream_eq_pandas ddof hd bs k hk hrow]; rfl
+  rw [List.getElem?_map, var_stream_eq_pandas ddof hd bs k hk]; rfl
 
 /-! ## value_counts and groupby -/
 
@@ -196,9 +195,9 @@ theorem groupby_var_of_pipeline_eq_pandas (ddof : Nat) (hd : ddof ≤ 1) (p : Li
 example : run Mean [[], [some 1, some 2, some 3]] = [none, some 2] := by decide +kernel
 -- all-NaN batch, empty batch, data: NaN, NaN, 5/2
 example : run Mean [[none], [], [some 2, none, some 3]] = [none, none, some ((5 : Rat) / 2)] := by decide +kernel
--- Var raises on the row-less prefix, then NaN (n = 1 ≤ ddof), NaN, then the variance 2 of {1, 3}
+-- Var: NaN on the row-less prefix (repaired; it used to raise), then NaN (n = 1 ≤ ddof), NaN, then the variance 2 of {1, 3}
 example : run (Var 1) [[], [some 1, none], [], [some 3]]
-    = [Res.zeroDiv, Res.ok none, Res.ok none, Res.ok (some 2)] := by decide +kernel
+    = [Res.ok none, Res.ok none, Res.ok none, Res.ok (some 2)] := by decide +kernel
 example : ∃ (bs : List Col) (k : Nat), k < bs.length ∧ (bs.take (k + 1)).flatten ≠ [] ∧ (1 : Int) < pcount (bs.take (k + 1)).flatten :=
   ⟨[[], [some 1, none], [], [some 3]], 3, by decide, by decide, by decide⟩
 -- groupby: NaN key dropped, key 0 vanishes and keeps its value, key 1 has only NaN values
